@@ -215,7 +215,7 @@ reg("C02",
     "DESIGN.md §4 C02")
 
 reg("C07",
-    "Ratio.tla transcribes ratio_distribute / ratio_reduce / Table._collapse_widths in exact integer arithmetic; TLC (M1) checks the promised properties of the transcription on every instance of a grid (totals 0..14, up to 3 (quick) / 4 (thorough) slots) and every instance is also run through the real functions and compared by TLC (drift vs broken promise). Table.tla defines the structural minimum and the clauses Rect / ExpandExact / RowOrder / CellsInColumn over a lexically projected render; MC_Table shows an ideal render of every small recipe is accepted and 8 classic corruptions rejected, and emits random builder histories; those plus seeded random recipes (1..6 columns, 0..8 rows, all options of the quantifier, wide / zero-width / multi-line / nested cells) are built as real rich.table.Table objects, rendered at 5..7 widths from the structural minimum to 200 and judged by TLC (Trace_Table). Bounded sampling plus conformance, not a proof; only the first failing clause per record is reported.",
-    "Trusted: drivers/c07.py project/build (characters attributed by per-cell alphabets, blanks and borders by colour tags; widths from rich.cells, C13). Title/caption are not body; Table.width exactness and padding sides are DRIFT only; no_wrap columns with nested renderables, ratio=0 and width caps below the content minimum are outside. Open findings: solver not minimum-aware; min_width re-imposed after collapse.",
+    "Ratio.tla transcribes ratio_distribute / ratio_reduce / Table._collapse_widths in exact integer arithmetic; TLC (M1) checks the promised properties of the transcription on every instance of a grid (totals 0..14, up to 3 (quick) / 4 (thorough) slots) and every instance is also run through the real functions and compared by TLC (drift vs broken promise). Table.tla defines the structural minimum and the clauses Rect / ExpandExact / RowOrder / CellsInColumn over a lexically projected render; MC_Table shows an ideal render of every small recipe is accepted and 8 classic corruptions rejected, and emits random builder histories; those plus seeded random recipes (1..6 columns, 0..8 rows, all options of the quantifier, wide / zero-width / multi-line / nested cells) are built as real rich.table.Table objects, rendered at 5..7 widths from the structural minimum to 200 and judged by TLC (Trace_Table). TableSolver.tla transcribes Table._calculate_column_widths as a whole on top of Ratio.tla; MC_TableSolver (unit-increment states, BFS depth = instance size) exhibits both open findings as smallest counter-examples of the design as it is, model-checks a repaired design (one raise + recollapse step before return) for fits/fed/exact, conservativeness and by ablation; every emitted instance (<=3 columns, content 1..2/<=6, paddings incl. pad_edge/collapse_padding, ratios, min_width; thorough also width/max_width/no_wrap/Table.min_width) is run through the real method at 5..7 widths from the structural minimum and compared by TLC (Trace_TableSolver: same/repaired/patched/DRIFT, never a violation). Bounded sampling plus conformance, not a proof; only the first failing clause per record is reported.",
+    "Trusted: drivers/c07.py project/build (characters attributed by per-cell alphabets, blanks and borders by colour tags; widths from rich.cells, C13). Title/caption are not body; Table.width exactness and padding sides are DRIFT only; no_wrap columns with nested renderables, ratio=0 and width caps below the content minimum are outside. Open findings: solver not minimum-aware; min_width re-imposed after collapse (a ~30-line repair is model-checked and kept under proposed_repairs/, not applied: not a minimal change; an empty no_wrap column in an expanding table rendering one cell too wide is masked by the min_width finding).",
     "TLA+ specs Ratio.tla / Table.tla; TLC exhaustive model check of the arithmetic with one real call per model state; TLC check of the acceptance relation against ideal and corrupted renders; TLC-generated (-simulate) builder histories and seeded random recipes rendered by the real Table; TLC batch validation of projected renders; delta-minimisation where each round is one TLC batch",
     "DESIGN.md §4 C07")
